@@ -24,7 +24,8 @@ Direct oracle (failing-input search, on the implementation only):
     tokens (computed from the real token list);
   * a corpus with every built-in tag that writes text inside `{% if true %}`:
     suppression on/off may differ only in whitespace;
-  * known finding content-run-split-at-final-newline is re-observed.
+  * the witness of content-run-split-at-final-newline (fixed by /repo 33ea620)
+    is re-observed on every run.
 """
 
 from __future__ import annotations
@@ -640,47 +641,61 @@ def assignment_number(ms: list[str]) -> int:
 # running groups of cases through coqc in parallel (one defs block per program)
 
 
-def correspond_groups(chk: C.Check, groups: list[dict[str, Any]], what: str) -> None:
-    """Each group has its own `defs` (program, data, string table) and items;
-    groups are evaluated concurrently, each as one cases.v file."""
-    from concurrent.futures import ThreadPoolExecutor
-    import time
-    t0 = time.time()
+class GroupRunner:
+    """Each group has its own `defs` (program, data, string table) and items and
+    is evaluated as one cases.v file; groups are handed to coqc as soon as they
+    are generated, concurrently with the generation of the next ones."""
 
-    def one(g: dict[str, Any]) -> dict[str, Any]:
+    def __init__(self, chk: C.Check, what: str) -> None:
+        from concurrent.futures import ThreadPoolExecutor
+        import time
+        self.chk, self.what = chk, what
+        self.ex = ThreadPoolExecutor(max_workers=C.JOBS)
+        self.pending: list[tuple[dict[str, Any], Any]] = []
+        self.t0 = time.time()
+
+    @staticmethod
+    def _one(g: dict[str, Any]) -> dict[str, Any]:
         return C.run_cases(g["tag"], IMPORTS, g["defs"], [it["case"] for it in g["items"]],
                            shard=max(1, len(g["items"])))
-    with ThreadPoolExecutor(max_workers=C.JOBS) as ex:
-        results = list(ex.map(one, groups))
-    nbad = ncases = 0
-    first: tuple | None = None
-    for g, rc in zip(groups, results):
-        ncases += rc["n"]
-        for e in rc["errors"]:
-            chk.notes.append(f"coq case error ({g['tag']}): " + e[:400])
+
+    def submit(self, g: dict[str, Any]) -> None:
+        self.pending.append((g, self.ex.submit(self._one, g)))
+
+    def finish(self) -> None:
+        import time
+        chk, what = self.chk, self.what
+        nbad = ncases = 0
+        first: tuple | None = None
+        for g, fut in self.pending:
+            rc = fut.result()
+            ncases += rc["n"]
+            for e in rc["errors"]:
+                chk.notes.append(f"coq case error ({g['tag']}): " + e[:400])
+                if not chk.violations:
+                    chk.finding("correspondence:" + what + ":build", "generated case files did not evaluate",
+                                {"errors": rc["errors"][:3], "group": g["tag"],
+                                 "broken": f"correspondence {what} (coqc on generated cases)"}, no_input=True)
+            if rc["bad"]:
+                nbad += len(rc["bad"])
+                if first is None:
+                    first = (g, rc["bad"])
+        self.ex.shutdown()
+        if first is not None:
+            g, bad = first
+            idx = bad[:3]
+            outs = C.eval_terms(g["tag"], IMPORTS, g["defs"], [g["items"][i]["model"] for i in idx])
+            for i, o in zip(idx, outs):
+                chk.notes.append(f"{what}: model/implementation disagree on {g['tag']} case #{i}: "
+                                 f"{str(g['items'][i]['replay'])[:300]} model={o[:300]}")
             if not chk.violations:
-                chk.finding("correspondence:" + what + ":build", "generated case files did not evaluate",
-                            {"errors": rc["errors"][:3], "group": g["tag"],
-                             "broken": f"correspondence {what} (coqc on generated cases)"}, no_input=True)
-        if rc["bad"]:
-            nbad += len(rc["bad"])
-            if first is None:
-                first = (g, rc["bad"])
-    if first is not None:
-        g, bad = first
-        idx = bad[:3]
-        outs = C.eval_terms(g["tag"], IMPORTS, g["defs"], [g["items"][i]["model"] for i in idx])
-        for i, o in zip(idx, outs):
-            chk.notes.append(f"{what}: model/implementation disagree on {g['tag']} case #{i}: "
-                             f"{str(g['items'][i]['replay'])[:300]} model={o[:300]}")
-        if not chk.violations:
-            chk.finding("correspondence:" + what,
-                        f"model and implementation disagree ({nbad} of {ncases} cases); no direct property failure found",
-                        {"case": g["items"][idx[0]]["replay"], "model": outs[0],
-                         "broken": f"correspondence {what}", "group": g["tag"]}, no_input=True)
-    chk.coverage["model_cases"] = chk.coverage.get("model_cases", 0) + ncases
-    chk.coverage["model_disagreements"] = chk.coverage.get("model_disagreements", 0) + nbad
-    chk.coverage.setdefault("correspondence_wall_s", {})[what] = round(time.time() - t0, 1)
+                chk.finding("correspondence:" + what,
+                            f"model and implementation disagree ({nbad} of {ncases} cases); no direct property failure found",
+                            {"case": g["items"][idx[0]]["replay"], "model": outs[0],
+                             "broken": f"correspondence {what}", "group": g["tag"]}, no_input=True)
+        chk.coverage["model_cases"] = chk.coverage.get("model_cases", 0) + ncases
+        chk.coverage["model_disagreements"] = chk.coverage.get("model_disagreements", 0) + nbad
+        chk.coverage.setdefault("correspondence_wall_s", {})[what] = round(time.time() - self.t0, 1)
 
 
 # --------------------------------------------------------------------------
@@ -718,12 +733,12 @@ def main(chk: C.Check, build: C.Build) -> None:
     exhaustive_max = 6 if thorough else 5
     programs: list[tuple[str, list]] = [("corpus", p) for p in CORPUS]
     programs += [("small", p) for p in small_programs(r, exhaustive_max)]
-    for _ in range(260 if thorough else 44):
+    for _ in range(170 if thorough else 44):
         budget = [r.choice([3, 4, 6, 8] if thorough else [3, 4, 5, 6])]
         programs.append(("random", gen_items(r, r.choice([1, 2, 3] if thorough else [1, 2, 2, 3]), budget, top=True)))
     programs += [("illformed", p) for p in ILL_FORMED]
 
-    groups: list[dict[str, Any]] = []
+    runner = GroupRunner(chk, "Trim.observe (render output, ContentNode trim pairs, RawNode texts)")
     stats = {"programs": 0, "renders": 0, "parses": 0, "exhaustive_programs": 0, "syntax_errors": 0,
              "content_tokens_split_by_lexer": 0, "split_programs": 0, "suppressed_outputs": 0,
              "marker_positions_max": 0, "assignments": 0}
@@ -864,7 +879,7 @@ def main(chk: C.Check, build: C.Build) -> None:
         defs.append(f"Definition TBL : list str := {tbl.coq()}.")
         defs.append(f"Definition OUTC : list outcome := {C.clist(outc, 'outcome')}.")
         defs.append(f"Definition NS : list N := {C.clist(map(str, nums), 'N')}.")
-        groups.append({"tag": f"c18_{os.getpid()}_p{pi:03d}{'s' if do_split else ''}", "defs": "\n".join(defs), "items": gitems})
+        runner.submit({"tag": f"c18_{os.getpid()}_p{pi:03d}{'s' if do_split else ''}", "defs": "\n".join(defs), "items": gitems})
         if len(samples) < 5 and origin in ("random", "small") and pi % 7 == 0 and not do_split:
             ms = msets[len(msets) // 2]
             src = to_source(items, iter(ms))
@@ -934,7 +949,7 @@ def main(chk: C.Check, build: C.Build) -> None:
             chk.finding(sig, f"blank-block suppression removed text: {src!r} renders {outs[0]!r}, without suppression {outs[1]!r}",
                         {"source": src, "suppress_on": outs[0], "suppress_off": outs[1]})
 
-    # ---- known finding: the lexer splits a content run before a final newline,
+    # ---- (fixed by /repo 33ea620) the lexer split a content run before a final newline,
     # so `-}}` does not trim the whole run
     w19 = impl.envs["+"].from_string("{{ 'a' -}} \n").render()
     if w19 != "a":
@@ -944,7 +959,7 @@ def main(chk: C.Check, build: C.Build) -> None:
                     {"source": "{{ 'a' -}} \n", "output": w19,
                      "tokens": [str(t) for t in real_flat(impl.tokens("{{ 'a' -}} \n"))]})
 
-    correspond_groups(chk, groups, "Trim.observe (render output, ContentNode trim pairs, RawNode texts)")
+    runner.finish()
     C.correspond(chk, f"c18_{os.getpid()}_trim", IMPORTS, "", trim_items,
                  what="Trim.trim / is_ws", shard=40 if thorough else 16)
     C.proofs_verdict(chk, proofs_ok)
@@ -967,5 +982,5 @@ def main(chk: C.Check, build: C.Build) -> None:
         "the model works on the token tree the lexer produced (checked token by token against env.tokenize on every case); the lexer itself is Kernels/Lex.v's subject",
         "expressions of the fragment are data parameters (variable values, condition truth, loop lengths, case subjects): capture_opaque holds by construction, captured text is only ever written out whole",
         "break/continue, include/render, macros, inheritance and filters are outside the modelled fragment; their `blank` flags are audited by a fixed corpus only",
-        "model of the code after proposed_fixes/C18 (RawNode.blank, case first-tag carry) and /repo 4e4e9da (case else)",
+        "model of the code after proposed_fixes/C18 (RawNode.blank = /repo 2bbeefc, case first-tag carry = /repo b6d566b) and /repo 4e4e9da (case else)",
     ]
